@@ -153,13 +153,16 @@ def run(tier):
             tasks.append(("task_date", ((f,), ext, "single")))
     for ext in (False, True):
         tasks.append(("task_date", (None, ext, "all")))
-    nsub = 6 if tier == "quick" else 40
+    nsub = 40 if tier == "quick" else 300
     for k in range(nsub):
-        sub = tuple(rnd.sample(docf, rnd.randint(2, 5)))
+        sub = tuple(rnd.sample(docf, rnd.randint(2, 6)))
         tasks.append(("task_date", (sub, bool(k % 2), "subset")))
+    if tier == "thorough":      # every ordered pair of formats (order matters for Either's first-alternative rule)
+        for k, (a, b) in enumerate(itertools.permutations(docf, 2)):
+            tasks.append(("task_date", ((a, b), bool(k % 2), "pair")))
     run.add(common.run_tasks(__name__, tasks))
     run.triage(REGIONS)
-    run.bounds = {"formats": "each of the 48 documented formats alone, formats=None, %d random subsets (seed %d), both is_extensible" % (nsub, common.SEED),
+    run.bounds = {"formats": "each of the 48 documented formats alone, formats=None, %d random subsets of 2-6 formats (seed %d)%s, both is_extensible" % (nsub, common.SEED, ", all 2256 ordered pairs" if tier == "thorough" else ""),
                   "text_length": "<= max pattern width + 2 (languages are finite: fullmatch verdict is complete for every length); embedded spans all (i,j) up to N=8 for multi-format patterns",
                   "characters": "all of Unicode minus Unicode-only \\d\\s\\w members"}
     run.assumptions = ["reference per format from the documented table d=1-9, dd=01-31, m=1-9, mm=01-12, yy, yyyy (props/C19.py PART)",
